@@ -732,6 +732,10 @@ func c07R10(p *core.Prog, r *core.Report) {
 				key := fmt.Sprintf("%s: result on the path [%s]", spec.fn, strings.Join(flags, ", "))
 				ret := core.Plain(rets[0].S)
 				switch {
+				case ret != spec.raw && ret != "0" && strings.HasSuffix(spec.fn, "GetAofLockExpriedTime") && !(strings.Contains(ret, "expriedTime") && strings.Contains(ret, "CommandTime")):
+					// write side: what is left is the deadline minus the record's own time stamp
+					// (CommandTime), the origin the loader measures the elapsed time from
+					r.Violate(rule, key+" (origin)", x.Pos(), "the remaining period written to the record ("+ret+") is not the hold's deadline minus the record's CommandTime: the loader measures the elapsed time from CommandTime, so a record pushed some time after the hold started restores the hold with that delay added to its life", x.St.Trace)
 				case ret != spec.raw:
 					r.Hold(rule, key, x.Pos(), "computed from the deadline / the elapsed time: "+ret)
 				case allowed != "":
